@@ -104,11 +104,12 @@ PROPS = {
               "hierarchy is a pass-through - one WAV per track, no L/R merging (P8). The cue text handed to the parser is the whole file (Q5)."
               "" + NOT +
               "tracks without INDEX lines; equality of bytes."),
-    "C04": _p(["L1w", "L2", "L7", "P5", "P6", "L8c", "P7"],
+    "C04": _p(["L1w", "L2", "L7", "P5", "P6", "L8c", "P7", "P3"],
               "Decides the RIFF structure clauses: evaluated layouts of RiffStruct / chunk / fmt (16 bytes) / smpl (36 + 24*loops) / loop (24) incl. Prefixed(Int32ul) nesting, "
               "little-endian chunk ids, Rebuild terms byte_rate = rate*channels*bits//8 and block_align = channels*bits//8, loop count = len(loops) (L1w, L2); chunk append order "
               "fmt,[smpl],data; fmt values; destination encoding; output opened with builtin open(path,'wb') (L7); every data block trimmed to whole frames of that stream (P5); the frame size used for that trim is the one of the "
-              "encoding the stream is constructed with (L8c: CDDA tracks are 2 x 2 bytes) and interleaving pads all channels to one length before emitting frames (P6)." + NOT +
+              "encoding the stream is constructed with (L8c: CDDA tracks are 2 x 2 bytes) and interleaving pads all channels to one length before emitting frames (P6); a merged stereo sample carries its members' own stream objects - with the "
+              "encodings they were built with - and a channel count equal to their number, which is what the fmt chunk's bits per sample and block align are computed from (P3)." + NOT +
               "that construct's Prefixed computes sizes correctly; smpl field value ranges; samples whose export raises."),
     "C05": _p(["P1", "P8", "P2", "P3", "P6", "P5", "P7", "N3", "N7", "R1", "N5", "S9", "I1", "B1d", "L6e", "O1"],
               "Decides the pairing clauses: marks and index keyed by export name only, every iteration path emits exactly one sample or skips a consumed one, partner marked iff "
@@ -151,11 +152,13 @@ PROPS = {
               "split on / and \\, trailing empty token dropped (N8); tokeniser loop terminates (T1). Every child of a volume is an element: an entry that cannot be realised contributes nothing (I1)."
               "" + NOT +
               "that normalisation after de-duplication cannot merge two names (case/blank variants); blank names; error-free rendering of every item."),
-    "C11": _p(["S6", "S5", "S8", "L1a", "L1r", "D4", "S1", "I6", "I9"],
+    "C11": _p(["S6", "S5", "S8", "L1a", "L1r", "D4", "S1", "I6", "I9", "I2", "R1"],
               "Decides: every site that reads an underlying stream (StreamWrapper.read, SectorStream._read_sector, StreamReversed via read) re-establishes that stream's cursor from its own "
               "state on every path - tell/compare/_seek(position) or absolute seek to the sector address immediately before the read; raw readers are called only from those layers (S6); "
               "no subclass bypasses read (S5); parse-time probes restore positions (S8); shared partition / data-area windows have the recorded offset/size terms (L1a, L1r); the construct objects shared by all "
-              "volumes keep no allocation table or stream from an earlier parse (I6)." + NOT +
+              "volumes keep no allocation table or stream from an earlier parse (I6); the one reader that does start from wherever the shared handle stands - the AKAI partition "
+              "scan - runs once, right after the constructor has rewound the handle, and is never re-armed (I2); the export rewinds every data stream before it transcodes it, whatever "
+              "was read from it or from its neighbours before (R1)." + NOT +
               "the schedule enumeration; reads performed inside construct on the raw handle."),
     "C12": _p(["P4", "P5", "P6", "R1", "S6"],
               "Decides: zip / parallel indexing only combines lists of one index domain (per stream vs per channel), interprocedurally for the swap flags (P4); byte-order predicates vs "
@@ -166,8 +169,10 @@ PROPS = {
               "Decides the termination/boundedness clauses visible in code shape: every `while` loop of the package carries a termination variant checked on every back-edge path of a "
               "hand-built CFG - COUNTER, BOUNDED-RAISE, LEN-CONSUME (with callee summaries), ITERATOR, VISITED-WALK, STREAM-PARSE (record consumption proven positive incl. the adapter's "
               "size>=1 guard), READ-UNTIL-EMPTY, ANCESTOR (T1); no `for` grows its own iterable (T2); every cycle of the resolved call graph is in a confirmed table with its side condition "
-              "re-checked (T3); image-controlled counts/sizes are width-bounded or lazy (T4); no regular expression of the package contains an "
-              "exponential-backtracking construct - nested unbounded repeats or overlapping alternatives under a repeat (T5); a failed block read ends the data iterator with "
+              "re-checked (T3); image-controlled counts/sizes are width-bounded or lazy, and the AKAI directory scan ends at the first slot whose end flag cannot be read instead of "
+              "skipping it like a bad entry (T4); no regular expression of the package contains an "
+              "exponential-backtracking construct - nested unbounded repeats or overlapping alternatives under a repeat - and, except for patterns only ever matched against fixed-width "
+              "struct fields, none lets two unbounded repeats share one run of characters before a point of failure (polynomial backtracking; T5, known findings G19a / G19b); a failed block read ends the data iterator with "
               "StopIteration (S9: an empty block instead would be re-requested forever)." + NOT + "complexity constants; loops inside construct/numpy; peak memory.",
               ["sector_length/buffer_length attributes are positive (constructor sites pass positive constants)", "the element parent relation is a tree"]),
     "C14": _p(["I1", "I5", "I4", "L1t", "L4", "L2", "S1", "S2", "L9", "L8r", "I9", "I11", "N12", "O1", "N4i"],
